@@ -264,7 +264,7 @@ where
           match argAt e.args 0 with
           | .panic p => .panic p
           | .ok a0 => lbind (newFilter o n a0) fun v0 => lok (vs ++ v0)
-        else lbind (leafFilter o e) fun _ => lok vs) := by
+        else lbind (leafFilter o e) fun _ => lok (vs ++ leafVars o e)) := by
     by_cases hb : isBinaryExpr e.op = true
     · simp only [hb, if_true] at hrest ⊢
       cases h0 : e.args[0]? with
